@@ -14,6 +14,7 @@
     body runs at most once;
   * `spillFull_fuel_irrelevant_any`, `spill_fuel_irrelevant_any` — the fuel the model chose is not part of the
     result: any larger fuel gives the same answer.
+  * `encap_byte_count_any` — byte accounting on any traffic: frames × L + pending = Σ (6 + payload + continuation byte).
   L = 0 is excluded and must be: the library does not terminate there (example at the end).
 -/
 import Acra.Lemmas.Chapter7Term
@@ -74,6 +75,20 @@ theorem frames_len_any_payload (pkts : List (Bytes × Bool)) (L sid : Nat) (hL :
     (newPtfr_open L sid) (by simp) h
   exact ⟨cur, out, h, fun f hf => (hfull f hf).2.1⟩
 
+/-- work bound / byte accounting, ANY traffic: the encapsulator neither loses nor invents a byte — not even in the K3
+    region (there bytes end up in the WRONG place, not nowhere).  Frames yielded × L + bytes pending = the sum over the
+    PTDPs of `datapkts_to_ptdp` of 6 header bytes + payload + 1 continuation byte if low-latency (`ptdpCost`); hence the
+    number of frames yielded is at most that sum / L. -/
+theorem encap_byte_count_any (pkts : List (Bytes × Bool)) (L sid : Nat) (hL : 0 < L) :
+    ∃ cur out, datapktsToPtfr pkts L sid = .ok (cur, out) ∧
+      out.length * L + cur.payload.length = ((datapktsToPtdp pkts).map ptdpCost).sum ∧
+      out.length ≤ ((datapktsToPtdp pkts).map ptdpCost).sum / L := by
+  obtain ⟨cur, out, h⟩ := datapktsToPtfr_ok pkts L sid hL
+  have hc := datapktsToPtfr_conserve pkts L sid hL cur out h
+  refine ⟨cur, out, h, hc, ?_⟩
+  rw [Nat.le_div_iff_mul_le hL, ← hc]
+  omega
+
 /-! ### witnesses -/
 
 /-- the hypotheses (`0 < L`, `sid < 16`) on a sequence in the K3 region: for L = 24 the low-latency insertions of this
@@ -86,6 +101,10 @@ example : ((datapktsToPtfr
     [([1, 2, 3], false), ([9, 9], true), (List.replicate 40 7, false), ([], true), ([5], true), ([4, 4], false)]
     24 1).toOption.map fun r => (r.2.map (·.payload.length), r.1.payload.length)) = some ([24, 24, 24], 15) := by
   decide +kernel
+/-- … 87 = 9 + 9 + 46 + 7 + 8 + 8 bytes = 3 × 24 + 15, as `encap_byte_count_any` says -/
+example : ((datapktsToPtdp
+    [([1, 2, 3], false), ([9, 9], true), (List.replicate 40 7, false), ([], true), ([5], true), ([4, 4], false)]).map
+    ptdpCost).sum = 3 * 24 + 15 := by decide +kernel
 /-- a low-latency packet LONGER than the frame (L = 5 < 6 + 3 + 1): four full frames -/
 example : ((datapktsToPtfr [([1], false), ([7, 7, 7], true), ([2], false)] 5 1).toOption.map fun r =>
     (r.2.map (·.payload.length), r.1.payload.length)) = some ([5, 5, 5, 5], 4) := by decide +kernel
